@@ -1,6 +1,10 @@
 //! C14: content streams.
 //!  (enc (ops (op xOP operand...)...))  -> (res xENCODED <dec>)       verdict: decode(encode ops) == norm ops
 //!  (dec xBYTES)                        -> (res2 <dec1> xREENC <dec2>) verdict: dec1 ok => dec2 == dec1
+//! An inline image is the operator BI with one stream operand; it is read back with a Length entry (Stream::new), so the
+//! expected operand of an `enc` case is the given stream with Length = content length.  Every decoded inline image
+//! (both modes) must hold exactly H rows of ceil(W * components * BPC / 8) bytes (ISO 32000-1 8.9.3: each row is
+//! padded to a whole byte) -- computed here from the decoded dictionary, independently of the parser.
 use lopdf::content::{Content, Operation};
 use lopdf::Object;
 use lvh::conv::*;
@@ -42,6 +46,53 @@ fn same(a: &Object, b: &Object) -> bool {
     }
 }
 
+/// what an operation is read back as: an inline image gains `Length` (set in place when the entry exists)
+fn expected_op(o: &Operation) -> Operation {
+    if let ("BI", [Object::Stream(st)]) = (o.operator.as_str(), o.operands.as_slice()) {
+        let mut st = st.clone();
+        st.dict.set("Length", st.content.len() as i64);
+        return Operation { operator: o.operator.clone(), operands: vec![Object::Stream(st)] };
+    }
+    o.clone()
+}
+
+/// ISO 32000-1 8.9.3 / table 93: the number of sample bytes of an unfiltered inline image
+fn image_bytes(d: &lopdf::Dictionary) -> Option<u128> {
+    let get = |a: &[u8], b: &[u8]| d.get(a).or_else(|_| d.get(b)).ok();
+    let w = get(b"W", b"Width")?.as_i64().ok()?;
+    let h = get(b"H", b"Height")?.as_i64().ok()?;
+    let bpc = get(b"BPC", b"BitsPerComponent")?.as_i64().ok()?;
+    let nc: i64 = match get(b"CS", b"ColorSpace")?.as_name().ok()? {
+        b"DeviceGray" | b"Gray" | b"G" => 1,
+        b"DeviceRGB" | b"RGB" => 3,
+        b"DeviceCMYK" | b"CMYK" | b"DeviceRGBA" | b"RGBA" => 4,
+        _ => return None,
+    };
+    if w < 0 || h < 0 || bpc < 0 || get(b"F", b"Filter").is_some() {
+        return None;
+    }
+    let row_bits = w as u128 * nc as u128 * bpc as u128;
+    Some(h as u128 * ((row_bits + 7) / 8))
+}
+
+/// every decoded inline image holds exactly the bytes its dictionary implies
+fn images_ok(ops: &[Operation]) -> Result<(), String> {
+    for o in ops {
+        if let ("BI", [Object::Stream(st)]) = (o.operator.as_str(), o.operands.as_slice()) {
+            if let Some(n) = image_bytes(&st.dict) {
+                if st.content.len() as u128 != n {
+                    return Err(format!(
+                        "a decoded inline image holds {} bytes of samples, its dictionary implies {} (rows padded to whole bytes)",
+                        st.content.len(),
+                        n
+                    ));
+                }
+            }
+        }
+    }
+    Ok(())
+}
+
 fn same_ops(a: &[Operation], b: &[Operation]) -> bool {
     a.len() == b.len()
         && a.iter().zip(b).all(|(p, q)| {
@@ -78,12 +129,19 @@ fn main() {
                     Err(_) => return (Sx::id("encode-error"), if wf { "FAIL encode returned an error".into() } else { "ok".into() }),
                 };
                 let dec = Content::decode(&enc);
+                let want: Vec<Operation> = ops.iter().map(expected_op).collect();
+                let has_image = ops.iter().zip(&want).any(|(a, b)| a.operands != b.operands || matches!(a.operands.as_slice(), [Object::Stream(_)]));
                 let verdict = if !wf {
                     "ok".to_string()
                 } else {
                     match &dec {
-                        Ok(c) if same_ops(&ops, &c.operations) => "ok".to_string(),
+                        Ok(c) if same_ops(&want, &c.operations) => match images_ok(&c.operations) {
+                            Ok(()) => "ok".to_string(),
+                            Err(e) => format!("FAIL {}", e),
+                        },
+                        Ok(_) if has_image => "FAIL decode(encode(ops)) differs from ops (the sequence holds an inline image)".to_string(),
                         Ok(_) => "FAIL decode(encode(ops)) differs from ops".to_string(),
+                        Err(_) if has_image => "FAIL decode(encode(ops)) is an error (the sequence holds an inline image)".to_string(),
                         Err(_) => "FAIL decode(encode(ops)) is an error".to_string(),
                     }
                 };
@@ -103,6 +161,7 @@ fn main() {
                         };
                         let d2 = Content::decode(&e);
                         let verdict = match &d2 {
+                            _ if images_ok(&c.operations).is_err() => format!("FAIL {}", images_ok(&c.operations).unwrap_err()),
                             Ok(c2) if same_ops(&c.operations, &c2.operations) => "ok".to_string(),
                             Ok(_) => "FAIL re-encoded content decodes to different operations".to_string(),
                             Err(_) => "FAIL re-encoded content does not decode".to_string(),
